@@ -1138,7 +1138,7 @@ def eval_stream(ctx: Ctx, c: dict):
             impl = f"err {fam}"
         ctx.corr(f"c18.{k} {p_opt(c['timeout'])} {c['now']} {int(c['it'])}{extra} {ptbl} / {revs}".replace("  ", " ").rstrip(), impl, c)
         oracle_frame(ctx, k, c, rep, out, fam, buf, why, sums, None, sock)
-        if c.get("again") and fam not in ("Timeout", "Exhausted") and not fam.startswith("FOREIGN"):
+        if c.get("again") and fam in ("ok", "FormError", "OtherParse", "Truncated"):
             # the same socket used for the next message of the connection (after a success or an error):
             # the second call must behave as a first call on what the first one left unread
             left = [list(e) for e in sock.revents]
@@ -1249,6 +1249,21 @@ def oracle_frame(ctx, k, c, rep, out, fam, buf, why, sums, qd, sock):
                 ctx.fail(f"C18/{tag}{k}/raised/{fam}-for-a-wellformed-message", "parse error on a well-formed framed message", rep)
 
 
+_LF = None
+
+
+def lf_accepted():
+    """does dns.ipv6.inet_aton (as shipped) accept a newline after a dotted-quad ending ('$' matches before a trailing newline)"""
+    global _LF
+    if _LF is None:
+        try:
+            dns.inet.inet_pton(AF6, "::1.2.3.4\n")
+            _LF = True
+        except Exception:
+            _LF = False
+    return _LF
+
+
 def eval_small(ctx: Ctx, c: dict):
     k = c["kind"]
     rep = {"kind": k, "case": c}
@@ -1263,6 +1278,12 @@ def eval_small(ctx: Ctx, c: dict):
             impl = "err NotImplemented"
         except Exception as e:
             impl = "err FOREIGN:" + type(e).__name__
+        if "\n" in text.split("%")[0] and not lf_accepted():
+            # dns.ipv6's dot-quad pattern no longer lets a trailing newline through (corpus/C18/FIX-ipv6-trailing-newline.diff applied):
+            # the model describes the shipped pattern, so such texts are only checked against the plain rule "not an address"
+            if impl.startswith("ok"):
+                ctx.fail("C18/inet_pton/invalid-text-accepted", f"inet_pton({text!r}) -> {impl}", rep)
+            return
         ctx.corr(f"c18.pton {c['af']} {hx(text.encode('ascii'))}", impl, c)
         ctx.count("pton." + impl.split(" ")[0] + (":" + impl.split(" ")[1] if impl.startswith("err") else ""))
         if c.get("bin") is not None and fam_of_af(c["af"]) == c.get("fam") and impl != "ok " + c["bin"]:
@@ -1673,6 +1694,12 @@ def gen_src(rng, fam, dest):
     if m == 16 and fam == 6:
         a = gen_addr(rng, fam, dest["bin"], port)
         a["rest"] = [port, rng.choice([0, 1]), dest["rest"][2] + rng.choice([0, 1, 1])]
+        if rng.chance(1, 3):
+            a["rest"] = rng.choice([[port], [port, 0], list(dest["rest"]) + [0]])  # a tuple of another arity is another address
+        return a
+    if m == 16:
+        a = gen_addr(rng, fam, dest["bin"], port)
+        a["rest"] = rng.choice([[port, 0], [port, 0, 0], []])
         return a
     if m == 17:
         return gen_bad_addr(rng, fam, dest["rest"])
